@@ -49,6 +49,10 @@ pub struct Rewriter<'a> {
     native_loops: usize,
     gen: std::collections::BTreeMap<String, usize>,
     strlits: Vec<String>,
+    /// statement-anchored proof insertions not yet placed (taken by rules that re-render a region)
+    stmt_edits: Vec<Edit>,
+    /// R30: name -> (map text, key text)
+    aliases: std::collections::HashMap<String, (String, String)>,
 }
 
 fn rng<T: Spanned>(t: &T) -> Range<usize> {
@@ -79,6 +83,23 @@ pub fn str_lit(s: &str) -> String {
     out
 }
 
+fn flatten_and<'e>(e: &'e syn::Expr, out: &mut Vec<&'e syn::Expr>) {
+    match e {
+        syn::Expr::Binary(b) if matches!(b.op, syn::BinOp::And(_)) => {
+            flatten_and(&b.left, out);
+            flatten_and(&b.right, out);
+        }
+        syn::Expr::Paren(p) => flatten_and(&p.expr, out),
+        other => out.push(other),
+    }
+}
+
+fn cond_has_let_chain(e: &syn::Expr) -> bool {
+    let mut parts = vec![];
+    flatten_and(e, &mut parts);
+    parts.len() > 1 && parts.iter().any(|p| matches!(p, syn::Expr::Let(_)))
+}
+
 fn closure_has_control_flow(e: &syn::Expr) -> bool {
     struct V(bool);
     impl<'ast> Visit<'ast> for V {
@@ -107,6 +128,8 @@ impl<'a> Rewriter<'a> {
             native_loops: 0,
             gen: Default::default(),
             strlits: vec![],
+            stmt_edits: vec![],
+            aliases: Default::default(),
         }
     }
     fn on(&self, r: &str) -> bool {
@@ -191,15 +214,64 @@ impl<'a> Rewriter<'a> {
         &self.src[rng(t)]
     }
 
+    fn place_stmt_proofs(&mut self, stmts: &[(Range<usize>, String)]) {
+        let mut out: Vec<Edit> = vec![];
+        for p in self.proofs.iter_mut() {
+            match p.mode.as_str() {
+                "before" | "after" | "wrap" | "rawbefore" => {
+                    let want = norm(&p.anchor);
+                    let cands: Vec<&(Range<usize>, String)> = stmts.iter().filter(|(_, t)| t.starts_with(&want)).collect();
+                    if cands.is_empty() {
+                        continue; // reported by check_all_used as lost anchor
+                    }
+                    let pick = match p.nth {
+                        Some(n) => match cands.get(n) {
+                            Some(c) => *c,
+                            None => continue,
+                        },
+                        None => {
+                            if cands.len() > 1 {
+                                die("malformed-unit", &format!("{}: proof anchor `{}` matches {} statements; add an index", self.fn_path, p.anchor, cands.len()));
+                            }
+                            cands[0]
+                        }
+                    };
+                    p.used = true;
+                                        match p.mode.as_str() {
+                        "before" => out.push(Edit { range: pick.0.start..pick.0.start, text: format!("proof {{\n{}}}\n", p.text), prio: -5 }),
+                        "rawbefore" => out.push(Edit { range: pick.0.start..pick.0.start, text: format!("{}\n", p.text), prio: -5 }),
+                        "after" => out.push(Edit { range: pick.0.end..pick.0.end, text: format!("\nproof {{\n{}}}\n", p.text), prio: 5 }),
+                        _ => {
+                            out.push(Edit { range: pick.0.start..pick.0.start, text: format!("{{ proof {{\n{}}}\n", p.text), prio: -6 });
+                            out.push(Edit { range: pick.0.end..pick.0.end, text: " }".to_string(), prio: 6 });
+                        }
+                    }
+                }
+                _ => {}
+            }
+        }
+        self.stmt_edits = out;
+    }
+
+    /// statement-anchored insertions lying inside `r` (for rules that re-render that region)
+    fn take_stmt_edits(&mut self, r: &Range<usize>) -> Vec<Edit> {
+        let (inside, rest): (Vec<Edit>, Vec<Edit>) = std::mem::take(&mut self.stmt_edits).into_iter().partition(|e| e.range.start >= r.start && e.range.end <= r.end);
+        self.stmt_edits = rest;
+        inside
+    }
+
     pub fn rewrite_fn_body(&mut self, block: &syn::Block) -> Vec<Edit> {
+        // statement-anchored proof blocks (computed first: rules that re-render a region take
+        // the insertions that fall inside it)
+        let mut stmts: Vec<(Range<usize>, String)> = vec![];
+        collect_stmts(block, self.src, &mut stmts);
+        self.place_stmt_proofs(&stmts);
         let mut c = Collector { rw: self, edits: vec![] };
         for st in &block.stmts {
             c.visit_stmt(st);
         }
         let mut edits = std::mem::take(&mut c.edits);
-        // statement-anchored proof blocks
-        let mut stmts: Vec<(Range<usize>, String)> = vec![];
-        collect_stmts(block, self.src, &mut stmts);
+        edits.append(&mut self.stmt_edits);
         let open_end = block.brace_token.span.open().byte_range().end;
         let close_start = block.brace_token.span.close().byte_range().start;
         let mut start_text = String::new();
@@ -237,7 +309,6 @@ impl<'a> Rewriter<'a> {
                 let _ = write!(start_text, "\nproof {{{t} }}\n");
             }
         }
-        let src = self.src;
         for p in self.proofs.iter_mut() {
             match p.mode.as_str() {
                 "start" => {
@@ -268,36 +339,6 @@ impl<'a> Rewriter<'a> {
                 "end" => {
                     p.used = true;
                     edits.push(Edit { range: close_start..close_start, text: format!("\nproof {{\n{}}}\n", p.text), prio: 5 });
-                }
-                "before" | "after" | "wrap" | "rawbefore" => {
-                    let want = norm(&p.anchor);
-                    let cands: Vec<&(Range<usize>, String)> = stmts.iter().filter(|(_, t)| t.starts_with(&want)).collect();
-                    if cands.is_empty() {
-                        continue; // reported by check_all_used as lost anchor
-                    }
-                    let pick = match p.nth {
-                        Some(n) => match cands.get(n) {
-                            Some(c) => *c,
-                            None => continue,
-                        },
-                        None => {
-                            if cands.len() > 1 {
-                                die("malformed-unit", &format!("{}: proof anchor `{}` matches {} statements; add an index", self.fn_path, p.anchor, cands.len()));
-                            }
-                            cands[0]
-                        }
-                    };
-                    p.used = true;
-                    let _ = src;
-                    match p.mode.as_str() {
-                        "before" => edits.push(Edit { range: pick.0.start..pick.0.start, text: format!("proof {{\n{}}}\n", p.text), prio: -5 }),
-                        "rawbefore" => edits.push(Edit { range: pick.0.start..pick.0.start, text: format!("{}\n", p.text), prio: -5 }),
-                        "after" => edits.push(Edit { range: pick.0.end..pick.0.end, text: format!("\nproof {{\n{}}}\n", p.text), prio: 5 }),
-                        _ => {
-                            edits.push(Edit { range: pick.0.start..pick.0.start, text: format!("{{ proof {{\n{}}}\n", p.text), prio: -6 });
-                            edits.push(Edit { range: pick.0.end..pick.0.end, text: " }".to_string(), prio: 6 });
-                        }
-                    }
                 }
                 _ => {}
             }
@@ -561,6 +602,30 @@ impl<'ast, 'r, 'a> Visit<'ast> for Collector<'r, 'a> {
     fn visit_stmt(&mut self, s: &'ast syn::Stmt) {
         match s {
             syn::Stmt::Item(_) => {} // nested items are extracted on their own
+            syn::Stmt::Local(l)
+                if self.rw.on("R30")
+                    && l.init.as_ref().map_or(false, |i| i.diverge.is_none() && is_method(&i.expr, "or_default").map_or(false, |od| od.args.is_empty() && is_method(&od.receiver, "entry").map_or(false, |en| en.args.len() == 1))) =>
+            {
+                // R30: `let r = M.entry(K).or_default();` whose later uses are `r.insert(A, B)`:
+                //   -> `__entry_or_default(&mut M, K);` ... `__entry_insert(&mut M, K, A, B)`
+                // (the alias to the inner map is replaced by going through M each time; K must be a
+                // plain variable so that re-evaluating it is harmless)
+                let init = l.init.as_ref().unwrap();
+                let od = is_method(&init.expr, "or_default").unwrap();
+                let en = is_method(&od.receiver, "entry").unwrap();
+                let name = match &l.pat {
+                    syn::Pat::Ident(pi) => pi.ident.to_string(),
+                    _ => die("unsupported", &format!("{}: R30 side condition: binding is not a plain name", self.rw.fn_path)),
+                };
+                if !matches!(&en.args[0], syn::Expr::Path(_)) {
+                    die("unsupported", &format!("{}: R30 side condition: the entry key is not a plain variable", self.rw.fn_path));
+                }
+                let m = self.render(&en.receiver);
+                let k = self.render(&en.args[0]);
+                self.rw.aliases.insert(name.clone(), (m.clone(), k.clone()));
+                self.rw.log.push(format!("R30 let {name} = {m}.entry({k}).or_default() -> __entry_or_default; {name}.insert(..) -> __entry_insert"));
+                self.edits.push(Edit { range: rng(s), text: format!("__entry_or_default(&mut {m}, {k});"), prio: 0 });
+            }
             syn::Stmt::Local(l) if self.rw.on("R3") || self.rw.on("R16") || self.rw.on("R3f") || self.rw.on("R17") || self.rw.on("R26") => {
                 if self.rw.on("R16") {
                     if let Some(t) = self.try_r16(l) {
@@ -753,6 +818,87 @@ impl<'ast, 'r, 'a> Visit<'ast> for Collector<'r, 'a> {
                 let body = self.render(&cl.body);
                 self.rw.log.push(format!("R28 closure parameter pattern {pat} -> let inside the body"));
                 self.edits.push(Edit { range: rng(e), text: format!("|__p| {{ let {pat} = __p; {body} }}"), prio: 0 });
+            }
+            // R22: `if A && B && C { BODY }` where some operand is a `let` (let-chain), no else branch
+            //   -> `if A { if B { if C { BODY } } }`
+            syn::Expr::If(ife) if self.rw.on("R22") && ife.else_branch.is_none() && cond_has_let_chain(&ife.cond) => {
+                let mut parts: Vec<&syn::Expr> = vec![];
+                flatten_and(&ife.cond, &mut parts);
+                let body = {
+                    let mut c = Collector { rw: self.rw, edits: vec![] };
+                    for st in &ife.then_branch.stmts {
+                        c.visit_stmt(st);
+                    }
+                    let mut edits = std::mem::take(&mut c.edits);
+                    let r = ife.then_branch.brace_token.span.open().byte_range().end..ife.then_branch.brace_token.span.close().byte_range().start;
+                    edits.append(&mut self.rw.take_stmt_edits(&r));
+                    apply_edits(self.rw.src, r, edits)
+                };
+                let mut text = String::new();
+                for pexp in &parts {
+                    let t = self.render(pexp);
+                    text.push_str(&format!("if {t} {{ "));
+                }
+                text.push_str(&body);
+                for _ in &parts {
+                    text.push_str(" }");
+                }
+                self.rw.log.push(format!("R22 let-chain of {} conditions -> nested ifs", parts.len()));
+                self.edits.push(Edit { range: rng(e), text, prio: 0 });
+            }
+            // R29: `while let Some(P) = S.iter().next() { BODY }`  ->  `loop { match __set_first(&S) { Some(P) => { BODY } None => { break; } } }`
+            syn::Expr::While(w) if self.rw.on("R29") && matches!(&*w.cond, syn::Expr::Let(_)) => {
+                let l = match &*w.cond {
+                    syn::Expr::Let(l) => l,
+                    _ => unreachable!(),
+                };
+                let nx = match is_method(&l.expr, "next") {
+                    Some(n) => n,
+                    None => die("unsupported", &format!("{}: R29 side condition: while-let scrutinee is not `S.iter().next()`", self.rw.fn_path)),
+                };
+                let it = match is_method(&nx.receiver, "iter") {
+                    Some(i) => i,
+                    None => die("unsupported", &format!("{}: R29 side condition: while-let scrutinee is not `S.iter().next()`", self.rw.fn_path)),
+                };
+                let key = format!("{}", self.rw.native_loops);
+                self.rw.native_loops += 1;
+                let (_iter, hdr, bs, be) = self.rw.loop_parts(&key);
+                let pat = self.rw.text(&*l.pat).to_string();
+                let set = self.render(&it.receiver);
+                let body = {
+                    let mut c = Collector { rw: self.rw, edits: vec![] };
+                    for st in &w.body.stmts {
+                        c.visit_stmt(st);
+                    }
+                    let mut edits = std::mem::take(&mut c.edits);
+                    let r = w.body.brace_token.span.open().byte_range().end..w.body.brace_token.span.close().byte_range().start;
+                    edits.append(&mut self.rw.take_stmt_edits(&r));
+                    apply_edits(self.rw.src, r, edits)
+                };
+                self.rw.log.push(format!("R29 loop {key}: while let {pat} = {set}.iter().next() -> loop + __set_first"));
+                self.edits.push(Edit { range: rng(e), text: format!("loop {hdr}{{ match __set_first(&{set}) {{ {pat} => {{ {bs}{body}{be} }} None => {{ break; }} }} }}"), prio: 0 });
+            }
+            // R30 (use site): `r.insert(A, B)` for an alias r recorded above
+            syn::Expr::MethodCall(m)
+                if self.rw.on("R30") && m.method == "insert" && m.args.len() == 2 && matches!(&*m.receiver, syn::Expr::Path(p) if p.path.get_ident().map_or(false, |i| self.rw.aliases.contains_key(&i.to_string()))) =>
+            {
+                let name = match &*m.receiver {
+                    syn::Expr::Path(p) => p.path.get_ident().unwrap().to_string(),
+                    _ => unreachable!(),
+                };
+                let (mp, k) = self.rw.aliases.get(&name).cloned().unwrap();
+                let a = self.render(&m.args[0]);
+                let b = self.render(&m.args[1]);
+                self.edits.push(Edit { range: rng(e), text: format!("__entry_insert(&mut {mp}, {k}, {a}, {b})"), prio: 0 });
+            }
+            // R31: `C += 1` on a plain variable  ->  `C = __succ_u32(C)`  (machine arithmetic of an id
+            // counter treated as mathematical: the shim assumes the counter does not overflow)
+            syn::Expr::Binary(b)
+                if self.rw.on("R31") && matches!(b.op, syn::BinOp::AddAssign(_)) && matches!(&*b.left, syn::Expr::Path(_)) && norm(self.rw.text(&*b.right)) == "1" =>
+            {
+                let c = self.render(&b.left);
+                self.rw.log.push(format!("R31 `{c} += 1` -> {c} = __succ_u32({c}) (no-overflow assumption)"));
+                self.edits.push(Edit { range: rng(e), text: format!("{c} = __succ_u32({c})"), prio: 0 });
             }
             // R12: M.entry(K).or_default().insert(V)  ->  __entry_or_default_insert(M, K, V)
             // side condition: M is a `&mut` binding (implicit reborrow; rustc rejects anything else)
